@@ -1,6 +1,7 @@
 package main
 
 import (
+	"time"
 	"fmt"
 	"go/constant"
 	"go/token"
@@ -28,6 +29,9 @@ type Frame struct {
 	call    ssa.Instruction // call instruction in the caller awaiting the result (nil: result dropped)
 	isDefer bool            // this frame runs a deferred call of the frame below
 	collect *collector      // pure-call result collector
+	after   func(m *Machine, r Value) Value // result transformer (stub callbacks, pool havoc)
+	afterCall ssa.Instruction
+	afterDefer bool
 	running bool            // (on the deferring frame) defers are being run because of a panic
 }
 
@@ -35,13 +39,19 @@ type panicState struct {
 	val     Value
 	runtime bool
 	msg     string
+	where   string // function + file:line where it was raised
+	site    string // function :: source text of the line (stable key)
+	stack   []string
 }
 
 type Finding struct {
-	Kind  string
-	Where string
-	Msg   string
-	Model map[string]uint64
+	Kind  string            `json:"kind"`
+	Where string            `json:"where"`
+	Site  string            `json:"site"`
+	Msg   string            `json:"msg"`
+	Stack []string          `json:"stack,omitempty"`
+	Model map[string]uint64 `json:"model,omitempty"`
+	NoModel bool            `json:"no_model,omitempty"`
 }
 
 type Machine struct {
@@ -59,6 +69,7 @@ type Machine struct {
 	Steps    int
 	Forks    int
 	findings map[string]*Finding
+	findingOrder []string
 	intr     map[string]func(m *Machine, fr *Frame, args []Value, call ssa.Instruction, isDefer bool) (Value, int)
 	inputs   []*T // symbolic inputs for model dumps
 	onEnd    func(m *Machine)
@@ -71,6 +82,22 @@ type Machine struct {
 	decisions []*T
 	PureCalls int
 	noPure   bool
+	tier, part   int
+	allocated    *T
+	stdoutWrites int
+	stdoutIsFinding bool
+	logEvents, logWrites int
+	poolHavoc    bool
+	stubsUsed    map[string]int
+	assertsSeen  map[string]int
+	fnsEncoded   map[*ssa.Function]bool
+	samples      []map[string]uint64
+	sampleMax    int
+	havocSeq     int
+	deadline     time.Time
+	maxPaths     int
+	aborted      string
+	fullPaths    int
 }
 
 type forkReq struct{ c *T }
@@ -83,7 +110,7 @@ type unsupported struct{ msg string }
 
 func NewMachine(prog *ssa.Program) *Machine {
 	m := &Machine{prog: prog, sol: NewSolver(), globals: map[*ssa.Global]*Loc{}, assumed: map[*T]bool{}, concs: map[*T]uint64{},
-		findings: map[string]*Finding{}, intr: map[string]func(*Machine, *Frame, []Value, ssa.Instruction, bool) (Value, int){}, maxSteps: 60000, opaque: map[string]Iface{}}
+		stubsUsed: map[string]int{}, assertsSeen: map[string]int{}, fnsEncoded: map[*ssa.Function]bool{}, allocated: BV(64, 0), findings: map[string]*Finding{}, intr: map[string]func(*Machine, *Frame, []Value, ssa.Instruction, bool) (Value, int){}, maxSteps: 60000, opaque: map[string]Iface{}}
 	registerIntrinsics(m)
 	return m
 }
@@ -181,12 +208,30 @@ func (m *Machine) check(ok *T, msg string) {
 type raised struct{}
 
 func (m *Machine) raiseRuntime(msg string) {
-	m.setPanic(&panicState{runtime: true, msg: msg, val: m.opaqueErr("runtime.Error")})
+	m.setPanic(&panicState{runtime: true, msg: msg, val: m.opaqueErr("runtime.Error"), where: m.where(), site: m.site(), stack: m.stackNames()})
 	panic(raised{})
 }
 func (m *Machine) raiseValue(v Value) {
-	m.setPanic(&panicState{val: v, msg: "explicit panic"})
+	m.setPanic(&panicState{val: v, msg: "explicit panic", where: m.where(), site: m.site(), stack: m.stackNames()})
 	panic(raised{})
+}
+
+func (m *Machine) stackNames() []string {
+	var r []string
+	for i := len(m.stack) - 1; i >= 0 && len(r) < 8; i-- {
+		r = append(r, m.stack[i].fn.String())
+	}
+	return r
+}
+
+// site is a line-number-free key of the current instruction: function :: trimmed source text.
+func (m *Machine) site() string {
+	if len(m.stack) == 0 {
+		return "?"
+	}
+	fr := m.top()
+	pos := m.prog.Fset.Position(m.curPos)
+	return fr.fn.String() + " :: " + srcLine(pos.Filename, pos.Line)
 }
 
 func (m *Machine) where() string {
@@ -208,34 +253,89 @@ func shortFile(f string) string {
 }
 
 func (m *Machine) report(kind, where, msg string) {
-	key := kind + "|" + where + "|" + msg
+	m.reportSite(kind, where, where, msg, nil)
+}
+
+func (m *Machine) reportSite(kind, where, site, msg string, stack []string) {
+	key := kind + "|" + site + "|" + msg
 	if _, ok := m.findings[key]; ok {
 		return
 	}
-	f := &Finding{Kind: kind, Where: where, Msg: msg, Model: map[string]uint64{}}
-	for _, in := range m.inputs {
-		m.sol.name(in)
+	f := &Finding{Kind: kind, Where: where, Site: site, Msg: msg, Stack: stack, Model: map[string]uint64{}}
+	m.findingOrder = append(m.findingOrder, key)
+	m.findings[key] = f
+	if kind == "unsupported" || kind == "bound" {
+		f.NoModel = true
+		return
 	}
-	if m.sol.Check() == "sat" {
-		for _, in := range m.inputs {
-			f.Model[in.Name] = m.sol.Value(in)
+	if mo := m.modelNow(); mo != nil {
+		f.Model = mo
+	} else {
+		f.NoModel = true
+	}
+}
+
+// modelNow returns a model of the current path condition over all declared inputs (nil if none).
+func (m *Machine) modelNow() map[string]uint64 {
+	type nin struct {
+		name string
+		t    *T
+	}
+	var ins []nin
+	for _, in := range m.inputs {
+		ins = append(ins, nin{in.Name, in})
+	}
+	for _, st := range streams {
+		for i := 0; i < st.max; i++ {
+			ins = append(ins, nin{fmt.Sprintf("%s_%d", st.name, i), st.data.Read(BV(64, uint64(i)))})
 		}
 	}
-	m.findings[key] = f
+	m.sol.Push()
+	defer m.sol.Pop()
+	bound := make([]*T, len(ins))
+	for i, in := range ins {
+		bound[i] = m.sol.Bind(in.t)
+	}
+	if m.sol.Check() != "sat" {
+		return nil
+	}
+	mo := map[string]uint64{}
+	for i, in := range ins {
+		mo[in.name] = m.sol.Value(bound[i])
+	}
+	return mo
 }
 
 // Explore runs all paths from the current machine state and restores the state afterwards.
 func (m *Machine) Explore() {
 	for {
+		if m.aborted != "" {
+			return
+		}
 		ev := m.runUntilEvent()
 		switch e := ev.(type) {
 		case pathEnd:
 			m.Paths++
-			if m.Paths%200 == 0 {
+			if m.Paths%500 == 0 && os.Getenv("VERIF_PROGRESS") != "" {
 				fmt.Fprintf(os.Stderr, "  .. paths=%d steps=%d queries=%d solver=%.1fs terms=%d\n", m.Paths, m.Steps, m.sol.Queries, m.sol.Time.Seconds(), termSeq)
+			}
+			if e.why == "return" && len(m.stack) == 0 {
+				m.fullPaths++
+				// log-spaced sampling of completed paths for native validation
+				if len(m.samples) < m.sampleMax && m.fullPaths&(m.fullPaths-1) == 0 {
+					if mo := m.modelNow(); mo != nil {
+						m.samples = append(m.samples, mo)
+					}
+				}
 			}
 			if m.onEnd != nil && e.why == "return" {
 				m.onEnd(m)
+			}
+			if !m.deadline.IsZero() && m.Paths%16 == 0 && time.Now().After(m.deadline) {
+				m.aborted = "time limit reached"
+			}
+			if m.maxPaths > 0 && m.Paths >= m.maxPaths {
+				m.aborted = "path limit reached"
 			}
 			return
 		case forkReq:
@@ -344,7 +444,7 @@ func (m *Machine) runUntilEvent() (ev interface{}) {
 		m.pathStep++
 		m.Steps++
 		if m.pathStep > m.maxSteps {
-			m.report("unwind", m.where(), "step budget exceeded")
+			m.reportSite("unwind", m.where(), m.site(), "step budget exceeded", m.stackNames())
 			return pathEnd{"budget"}
 		}
 		m.stepCatch()
@@ -368,8 +468,7 @@ func (m *Machine) stepCatch() {
 func (m *Machine) unwind() {
 	for {
 		if len(m.stack) == 0 {
-			where := "top"
-			m.report("panic", m.pan.msg, where)
+			m.reportSite("panic", m.pan.where, m.pan.site, m.pan.msg, m.pan.stack)
 			panic(pathEnd{"panic"})
 		}
 		fr := m.top()
@@ -495,7 +594,25 @@ func (m *Machine) callFunction(fn *ssa.Function, args []Value, call ssa.Instruct
 	for i, p := range fn.Params {
 		fr.regs[p] = args[i]
 	}
+	m.fnsEncoded[fn] = true
 	m.pushFrame(fr)
+}
+
+// callWithAfter runs fn and passes its result through after before delivering it to call.
+func (m *Machine) callWithAfter(fv Value, args []Value, call ssa.Instruction, isDefer bool, after func(m *Machine, r Value) Value) {
+	f := fv.(Func)
+	all := args
+	if f.Recv != nil {
+		all = append([]Value{f.Recv}, args...)
+	}
+	m.callFunction(f.Fn, all, nil, false)
+	fr := m.top()
+	for i, fvv := range f.Fn.FreeVars {
+		fr.regs[fvv] = f.Free[i]
+	}
+	fr.after = after
+	fr.afterCall = call
+	fr.afterDefer = isDefer
 }
 
 // callValue invokes a function value. Returns true if the call completed immediately (intrinsic).
@@ -569,6 +686,18 @@ func (m *Machine) doReturn(fr *Frame, results []Value) {
 		panic(pathEnd{"collected"})
 	}
 	m.popFrame()
+	if fr.after != nil {
+		r = fr.after(m, r)
+		if fr.afterDefer {
+			// deferred intrinsic: behave like a returning deferred frame
+			fr2 := *fr
+			fr2.isDefer = true
+			fr = &fr2
+		} else {
+			m.finishCall(fr.afterCall, r, false)
+			return
+		}
+	}
 	if len(m.stack) == 0 {
 		m.result = r
 		old := m.halted
@@ -625,6 +754,9 @@ func (m *Machine) step() {
 	switch x := in.(type) {
 	case *ssa.Alloc:
 		l := newLoc(x.Type().(*types.Pointer).Elem())
+		if x.Heap {
+			m.ghostAlloc(BV(64, uint64(sizeofType(x.Type().(*types.Pointer).Elem()))))
+		}
 		m.setReg(fr, x, Ptr{L: l})
 	case *ssa.Phi:
 		// evaluate all phis of the block simultaneously
@@ -697,14 +829,34 @@ func (m *Machine) step() {
 	case *ssa.Store:
 		m.storePtr(m.get(fr, x.Addr).(Ptr), m.get(fr, x.Val))
 	case *ssa.MakeSlice:
-		ln := m.get(fr, x.Len).(*T)
-		cp := m.get(fr, x.Cap).(*T)
-		n := int(m.conc(m.to64(cp, x.Cap.Type()), 64))
+		ln := m.to64(m.get(fr, x.Len).(*T), x.Len.Type())
+		cp := m.to64(m.get(fr, x.Cap).(*T), x.Cap.Type())
 		et := x.Type().Underlying().(*types.Slice).Elem()
-		s := Slice{Off: BV(64, 0), Len: m.to64(ln, x.Len.Type()), Cap: BV(64, uint64(n))}
+		esz := uint64(sizeofType(et))
+		// Go panics on negative / oversized len and on len > cap
+		m.check(Cmp("bvsle", BV(64, 0), ln), "makeslice: len out of range")
+		m.check(Cmp("bvsle", ln, cp), "makeslice: cap out of range")
+		if !cp.IsC {
+			// a make() whose size is not bounded by 64 KiB elements is an allocation controlled by the input
+			if !m.decide(Cmp("bvule", cp, BV(64, 1<<16))) {
+				m.sol.Assert(Cmp("bvule", cp, BV(64, 1<<26)))
+				if m.sol.Check() == "sat" {
+					m.reportSite("alloc", m.where(), m.site(), "make() with a size above 64Ki elements controlled by the input", m.stackNames())
+				}
+				panic(pathEnd{"alloc"})
+			}
+		}
+		m.ghostAlloc(Bin("bvmul", cp, BV(64, esz)))
+		s := Slice{Off: BV(64, 0), Len: ln, Cap: cp}
 		if isByte(et) {
-			s.BA = newZeroBA(n)
+			if cp.IsC {
+				s.BA = newZeroBA(int(cp.C))
+			} else {
+				s.BA = newZeroBA(0)
+			}
 		} else {
+			n := int(m.conc(cp, 64))
+			s.Cap = BV(64, uint64(n))
 			s.AL = newLoc(types.NewArray(et, int64(n)))
 		}
 		m.setReg(fr, x, s)
@@ -850,4 +1002,20 @@ func (m *Machine) doCall(fr *Frame, x *ssa.Call) {
 		m.raiseRuntime("call of nil function")
 	}
 	m.callValue(fv, args, x, false)
+}
+
+// Explore2Persist runs the current frame stack to completion on a single path and keeps the effects.
+func (m *Machine) Explore2Persist() {
+	for {
+		ev := m.runUntilEvent()
+		switch e := ev.(type) {
+		case pathEnd:
+			m.halted = false
+			m.trail = nil
+			m.pathStep = 0
+			return
+		default:
+			panic(fmt.Sprintf("fork during concrete execution: %#v at %s", e, m.where()))
+		}
+	}
 }
